@@ -16,6 +16,7 @@ import (
 	"github.com/btcsuite/btcd/txscript"
 	"github.com/btcsuite/btcd/wire"
 	"github.com/btcsuite/btcwallet/chain"
+	"github.com/btcsuite/btcwallet/waddrmgr"
 	"github.com/btcsuite/btcwallet/wallet"
 	"github.com/btcsuite/btcwallet/walletdb"
 	"github.com/btcsuite/btcwallet/wtxmgr"
@@ -111,6 +112,21 @@ func runWallet(r *evid.Run, dir string, idx int, cs int64) {
 		}
 		return false
 	}
+	// unconfirmed harness transactions that spend a NON-credited output of a wallet
+	// transaction and pay the wallet back (a payee's refund): descendants the wallet
+	// can only find through the spent outpoint, not through one of its own credits
+	var refunds []*wire.MsgTx
+	allUnconf := func() []*wire.MsgTx { return append(append([]*wire.MsgTx{}, f.Pending...), refunds...) }
+	dropRefund := func(h chainhash.Hash) {
+		for i, t := range refunds {
+			if t.TxHash() == h {
+				refunds = append(refunds[:i], refunds[i+1:]...)
+				delete(f.Coins, wire.OutPoint{Hash: h, Index: 0})
+				ch.Evict(h)
+				return
+			}
+		}
+	}
 	nAttempts := r.N(14, 30)
 	for a := 0; a < nAttempts; a++ {
 		class := classes[(idx+a*4+rg.Intn(2))%len(classes)]
@@ -131,7 +147,7 @@ func runWallet(r *evid.Run, dir string, idx int, cs int64) {
 			// a pending tx with a pending child
 			for _, p := range f.Pending {
 				ph := p.TxHash()
-				for _, c := range f.Pending {
+				for _, c := range allUnconf() {
 					if isDesc(c, map[chainhash.Hash]bool{ph: true}) {
 						parent = p
 					}
@@ -250,7 +266,7 @@ func runWallet(r *evid.Run, dir string, idx int, cs int64) {
 				gone := map[chainhash.Hash]bool{parent.TxHash(): true}
 				for changed := true; changed; {
 					changed = false
-					for _, p := range f.Pending {
+					for _, p := range allUnconf() {
 						if !gone[p.TxHash()] && isDesc(p, gone) {
 							gone[p.TxHash()] = true
 							changed = true
@@ -278,6 +294,12 @@ func runWallet(r *evid.Run, dir string, idx int, cs int64) {
 					if gone[p.TxHash()] {
 						ch.Evict(p.TxHash())
 						f.Forget(p)
+					}
+				}
+				for _, t := range append([]*wire.MsgTx{}, refunds...) {
+					if gone[t.TxHash()] {
+						dropRefund(t.TxHash())
+						r.Hit("rejected-republish-removed-refund-children", 1)
 					}
 				}
 				r.Hit("rejected-republish-removed-descendants", len(gone)-1)
@@ -313,6 +335,30 @@ func runWallet(r *evid.Run, dir string, idx int, cs int64) {
 					}
 				}
 				r.Hit("accepted-broadcasts-recorded", 1)
+				if rg.Intn(3) == 0 && mode != "republish-parent" {
+					// the payee refunds part of the payment from the (non-credited) payment output
+					for i, o := range tx.TxOut {
+						if string(o.PkScript) != string(dpk) {
+							continue
+						}
+						ra, err := f.W.NewAddress(0, waddrmgr.KeyScopeBIP0084)
+						if err != nil {
+							break
+						}
+						rpk, _ := txscript.PayToAddrScript(ra)
+						rt := wire.NewMsgTx(2)
+						rt.AddTxIn(wire.NewTxIn(&wire.OutPoint{Hash: h, Index: uint32(i)}, nil, nil))
+						rt.AddTxOut(wire.NewTxOut(o.Value-1500, rpk))
+						if ch.NotifyTx(rt, time.Unix(1700000000, 0)) {
+							ch.Barrier()
+							refunds = append(refunds, rt)
+							f.Coins[wire.OutPoint{Hash: rt.TxHash(), Index: 0}] = &wh.Coin{Op: wire.OutPoint{Hash: rt.TxHash(), Index: 0}, Out: rt.TxOut[0], Scope: waddrmgr.KeyScopeBIP0084, Acct: 0, Height: -1}
+							log = append(log, fmt.Sprintf("payee refunds %d from the payment output of %s (unconfirmed child through a non-credited output)", o.Value-1500, h.String()[:8]))
+							r.Hit("refund-children-created", 1)
+						}
+						break
+					}
+				}
 			} else {
 				// already known / confirmed: no error; the wallet expects the block notification.
 				// Keep the ledger in step with whatever the wallet did.
@@ -329,6 +375,7 @@ func runWallet(r *evid.Run, dir string, idx int, cs int64) {
 		}
 		if rg.Intn(6) == 0 {
 			f.MinePending()
+			refunds = nil
 			log = append(log, "mined pending")
 		}
 		if rg.Intn(8) == 0 {
